@@ -3,4 +3,4 @@ From GW Require Import Base GoPath Fs DavServer DavClient DavClientCodecs.
 Extraction Language OCaml.
 Extraction "model_c05.ml" run_op model_agrees spec_ok tree_spec_ok local_answers_agree
   ext_of_tables fs_of_script lookup_dmeta endpoint_path wf_info spec_target local_fs stored_ok codec_tables_agree
-  href_enc_agrees href_dec_agrees quote_agrees unquote_agrees time_fmt_agrees time_parse_agrees iph_of_list foreign_agrees read_stat read_list.
+  href_enc_agrees href_dec_agrees quote_agrees unquote_agrees time_fmt_agrees time_parse_agrees iph_of_list foreign_agrees read_stat read_list read_plain outcome_eqb.
